@@ -197,6 +197,7 @@ def _dispatch(name, symfn):
 
 
 LIB_FLOAT_MODULES = [
+    "Geometry3D.geometry.point",
     "Geometry3D.utils.vector",
     "Geometry3D.calc.intersection",
     "Geometry3D.geometry.polygon",
